@@ -30,7 +30,7 @@ def generate(ctx):
     import falib
     n = 250 if ctx.tier == "quick" else 3000
     rng = ctx.rng
-    cases = [dict(iglib.rand_chain_ig(rng) if rng.random() < 0.3 else iglib.rand_ig(rng), op="is_empty",
+    cases = [dict(iglib.rand_deep_ig(rng) if rng.random() < 0.06 else (iglib.rand_chain_ig(rng) if rng.random() < 0.3 else iglib.rand_ig(rng)), op="is_empty",
                   perm_seed=rng.randrange(10**6)) for _ in range(n)]
     for _ in range(min(n // 3, 400)):    # intersection with a regular language (the reference oracle runs in this process: keep it bounded)
         c = dict(iglib.rand_chain_ig(rng) if rng.random() < 0.4 else iglib.rand_ig(rng, max_nt=3, max_rules=5), op="inter",
